@@ -343,6 +343,7 @@ class CallMixin:
         fr = Frame(env, self.frames[-1].module, None, ct.func)
         self.frames.append(fr)
         saved_spec, saved_ghost = ctx.spec, ctx.ghost
+        saved_old = getattr(ctx, "old_snap", None)      # old(...) of the CALLER keeps denoting the caller's entry state after this call
         ctx.ghost = dict(ctx.ghost)
         try:
             was_spec = ctx.spec
@@ -406,6 +407,7 @@ class CallMixin:
             return res
         finally:
             ctx.spec, ctx.ghost = saved_spec, saved_ghost
+            ctx.old_snap = saved_old
             self.frames.pop()
 
     def inline_contract(self, ct, recv, args, kwargs):
